@@ -65,19 +65,19 @@ def run(ctx):
            f'amount also comes from {bad}: an edict could move more than the unallocated balance (or a different quantity)', where(b, c.line))
   # ---- R9.2 selection
   for c in sites:
-    gs = _guards(b, c.bb)
-    kinds = forms.get(c, set())
-    eq_out = [p for d, p in gs if d.startswith('Eq(') and 'output' in d and 'Vec::len' in d or (d.startswith('Eq(') and '.output' in d)]
-    eq_amt = [p for d, p in gs if d.startswith('Eq(Lot{') and d.endswith(',0)')]
-    nonempty = [p for d, p in gs if d.startswith('Vec::is_empty(')]
+    eq_out, eq_amt, nonempty = _tests(b, c.bb)
     name = _site_name(b, c)
     if name == 'split':
-      ok = eq_out == [True] and eq_amt == [True] and nonempty == [False]
+      ok = nonempty == [False]
     elif name == 'distribute':
-      ok = eq_out == [True] and eq_amt == [False] and nonempty == [False]
+      ok = nonempty == [False]
+    elif name == 'single':
+      ok = not nonempty
     else:
-      ok = eq_out == [False] and not nonempty
+      ok = False
     ctx.ob('R9.2', b.n, f'the {name} site is selected by exactly the documented tests', ok, f'output==len: {eq_out}, amount==0: {eq_amt}, destinations.is_empty: {nonempty}', where(b, c.line))
+    want_forms = {'split': {'share', 'share+1'}, 'distribute': {'min'}, 'single': {'all', 'min'}}.get(name)
+    ctx.ob('R9.2', b.n, f'the {name} site passes the amount form documented for it', want_forms is not None and forms.get(c, set()) == want_forms, f'{sorted(forms.get(c, set()))} (expected {sorted(want_forms or [])})', where(b, c.line))
     if name == 'single':
       # inside: *balance only under amount == 0
       tup = [o for o in origins(b, c.args[1]) if o.kind == 'agg'][0]
@@ -89,9 +89,7 @@ def run(ctx):
                   and b.local_name(st_['p']['l']) == 'amount']
           pols = set()
           for bi, st_ in defs:
-            for d, p in _guards(b, bi):
-              if d.startswith('Eq(Lot{') and d.endswith(',0)'):
-                pols.add(p)
+            pols |= set(_tests(b, bi)[1])
           want = {True} if k == 'all' else {False}
           if defs:
             ctx.ob('R9.2', b.n, f'single site: the {"whole balance" if k == "all" else "capped amount"} is chosen under amount {"==" if k == "all" else "!="} 0', pols == want, f'{pols}', where(b, c.line))
@@ -210,17 +208,33 @@ def _classify(b, o, gm):
   return None
 
 
+def _tests(b, bb):
+  """(output == outputs?, amount == 0?, destinations empty?) as decided on the way to block bb; Ne(..) is read as the negated Eq(..)"""
+  eq_out, eq_amt, empty = [], [], []
+  for d, p in _guards(b, bb):
+    if p is None:
+      continue
+    if d.startswith('Ne('):
+      d, p = 'Eq(' + d[3:], not p
+    if d.startswith('Eq(Lot{') and d.endswith(',0)'):
+      eq_amt.append(p)
+    elif d.startswith('Eq(') and '.output' in d:
+      eq_out.append(p)
+    elif d.startswith('Vec::is_empty('):
+      empty.append(p)
+  return eq_out, eq_amt, empty
+
+
 def _site_name(b, c):
-  tup = [o for o in origins(b, c.args[1]) if o.kind == 'agg']
-  if not tup:
-    return '?'
-  amt = tup[0].agg['ops'][1]
-  ks = {o.call.name.split('::')[-1] for o in origins(b, amt, passthrough=()) if o.kind == 'call' and o.call.name}
-  if 'div' in ks:
+  """which documented case a call of the allocation step belongs to, judged by the tests that select it (not by what it passes)"""
+  eq_out, eq_amt, empty = _tests(b, c.bb)
+  if eq_out == [True] and eq_amt == [True]:
     return 'split'
-  if ks == {'min'}:
+  if eq_out == [True] and eq_amt == [False]:
     return 'distribute'
-  return 'single'
+  if eq_out == [False]:
+    return 'single'
+  return 'unclassified'
 
 
 # sensitivity pack (thorough tier)
